@@ -2,7 +2,8 @@
    Only property theorems; proofs in TSS.Box.Handoff (sequential), TSS.Box.SyncFacts (lock-granular, the repaired Box of
    /repo) and TSS.Box.ConcFacts (lock-granular, the pinned upstream Box: refutations). *)
 Require Import TSS.Base.Base TSS.Box.Model TSS.Box.Assoc TSS.Box.Inv TSS.Box.Handoff TSS.Box.Refute
-               TSS.Box.Sync TSS.Box.SyncFacts TSS.Box.Conc TSS.Box.ConcFacts.
+               TSS.Box.Sync TSS.Box.SyncFacts TSS.Box.SyncCount TSS.Box.Conc TSS.Box.ConcFacts.
+From Coq Require Import Permutation.
 
 (* (1) For ALL interleavings at lock granularity of any number of goroutines, each making any sequence of HandleMessage and
    Send calls on the same and on different topics, at EVERY point of the run: per topic and sender, the messages handed
@@ -49,6 +50,19 @@ Theorem C14_arrival_order_is_call_order :
   forall src, from src (arrivals (wlog w)) ++ flat_map (rk src) (wths w) = flat_map (fun l => from src (recvs l)) scripts.
 Proof. exact arrival_order_is_call_order. Qed.
 Print Assumptions C14_arrival_order_is_call_order.
+
+(* (3b) Exactly once WITHOUT premises: in every interleaving, whatever the scripts (several goroutines may deliver
+   messages of one sender) and whether or not traffic is shed, the messages that have arrived are - as a multiset, so
+   with their multiplicities - exactly those handed over, shed, in the hands of a draining Send, in a draining queue,
+   buffered, or in the hands of the goroutine about to hand them over: nothing is duplicated, nothing disappears. *)
+Theorem C14_conservation :
+  forall c, var c = v_fixed -> forall scripts sched,
+  let w := wrun c scripts sched in
+  Permutation (handoffs (wlog w) ++ dropped (wlog w) ++ flat_map hand_of (wths w) ++ all_queued (wbox w) ++
+               all_buffered (sb (wbox w)) ++ flat_map fwd_of (wths w))
+              (arrivals (wlog w)).
+Proof. exact conservation. Qed.
+Print Assumptions C14_conservation.
 
 (* (4) No interleaving makes the Box panic, whatever the limits. *)
 Theorem C14_never_panics :
